@@ -286,8 +286,13 @@ class Check:
         if self.violations:
             os.makedirs(os.path.join(VERIF, "replays"), exist_ok=True)
             replay_path = os.path.join(VERIF, "replays", "%s-%s-seed%d.json" % (self.pid, self.tier, self.seed))
-            json.dump({"property": self.pid, "tier": self.tier, "seed": self.seed,
-                       "violations": self.violations[:50]}, open(replay_path, "w"), indent=1, default=str)
+            keep, per = [], {}
+            for v in self.violations:
+                per[v["sig"]] = per.get(v["sig"], 0) + 1
+                if per[v["sig"]] <= 3 and len(keep) < 12:
+                    keep.append(v)
+            json.dump({"property": self.pid, "tier": self.tier, "seed": self.seed, "n_violations": len(self.violations),
+                       "violations": keep}, open(replay_path, "w"), indent=1, default=str)
         cov = {
             "states": self.states,
             "transitions": self.transitions,
